@@ -2,7 +2,7 @@
 //
 //   clm.pack <file>...            file = <relpath-hex>=<content>      content = <hex>[+<n zero bytes>]  (sparse tail)
 //       CreateArchive from the files in the given order, reopen, list, stream and extract every member
-//       -> err | ok-big <archive length> | ok <archive bytes> <count> [<name-hex>:<size>:<stream bytes>:<wav header hex>/<wav payload>]...
+//       -> err | ok-big <archive length> | ok <archive bytes> <count> [<name-hex>|<size>|<stream bytes>|<wav header hex>/<wav payload>]...
 //   clm.open <content> <op>,<op>,...
 //       open the bytes as a CLM archive (one long-lived object), run the calls in order; then run every call again on a
 //       fresh object and report whether each outcome is the same
@@ -188,20 +188,20 @@ std::string packReport(const Args& a, const std::string& dir) {
   Archive::ClmFile clm(arc);
   out += " " + std::to_string(clm.GetCount());
   for (std::size_t i = 0; i < clm.GetCount(); ++i) {
-    out += " " + hexEncode(clm.GetName(i)) + ":" + std::to_string(clm.GetSize(i)) + ":" + tryStream(clm, i) + ":" + tryExtract(clm, i, dir + "/x");
+    out += " " + hexEncode(clm.GetName(i)) + "|" + std::to_string(clm.GetSize(i)) + "|" + tryStream(clm, i) + "|" + tryExtract(clm, i, dir + "/x");
   }
   return out;
 }
 }
 
-// clm.packlist <file>... : as clm.pack, but reports only the listing and the streams: ok <count> [<name-hex>:<size>:<stream bytes>]...
+// clm.packlist <file>... : as clm.pack, but reports only the listing and the streams: ok <count> [<name-hex>|<size>|<stream bytes>]...
 DRV_CMD(clm_packlist, "clm.packlist") {
   std::string dir = freshDir();
   std::string arc = packFiles(a, dir);
   Archive::ClmFile clm(arc);
   std::string out = "ok " + std::to_string(clm.GetCount());
   for (std::size_t i = 0; i < clm.GetCount(); ++i)
-    out += " " + hexEncode(clm.GetName(i)) + ":" + std::to_string(clm.GetSize(i)) + ":" + tryStream(clm, i);
+    out += " " + hexEncode(clm.GetName(i)) + "|" + std::to_string(clm.GetSize(i)) + "|" + tryStream(clm, i);
   return out;
 }
 
